@@ -100,6 +100,19 @@ func VF_C13_Constructors(n, form int) {
 		s = cls.MakeFromArray(xs)
 	case 1:
 		s = cls.MakeFromSequence(newArr(xs))
+	case 2:
+		// from a List that lives on: the stack is built from the values, not on top of the caller's list
+		src := newList(xs)
+		s = cls.MakeFromSequence(src)
+		s2 := cls.MakeFromSequence(src)
+		src.AppendValue(vf.Int("later"))
+		src.InsertValue(0, vf.Int("later2"))
+		if n > 0 {
+			src.SetValue(1, vf.Int("later3"))
+		}
+		if s2.GetSize() < int(s2.GetCapacity()) {
+			s2.AddValue(vf.Int("pushed"))
+		}
 	}
 	vf.Class("more-values-than-default-capacity", n > int(cls.DefaultCapacity()))
 	vf.Assert("size<=capacity", s.GetSize() <= int(s.GetCapacity()))
